@@ -22,6 +22,18 @@ CHECKS = {
  "C19": ("exploration", "differential monitor against the Go standard library over a completeness-checked wrapper table; round-trip/malformed-input monitor for codecs",
          "Every wrapped function found in the live modules is called with generated boundary arguments through the object API and through scripts and compared with the Go function it wraps; codecs are round-tripped and fed malformed input. Held on the argument classes explored.",
          "The function->Go mapping table is hand-written from the wrappers' source/docs; the run is inconclusive if a live function has no entry.", "DESIGN.md §5 C19"),
+ "C01": ("exploration", "reference-model monitor: generated programs evaluated by an independent reference interpreter and by the real lexer/parser/compiler/VM, outcomes compared; exhaustive operator-pair precedence and evaluation-order probes",
+         "Tens of thousands (quick) to millions (thorough) of generated programs plus fixed probe programs agree with an executable model of the pinned language rules on value, error class, printed output and final globals; held on the programs generated, with generator feature coverage enforced.",
+         "The reference interpreter is a specification reconstructed from the implementation and its tests at the pinned commit (design/LANGUAGE_RULES.md); constructs whose behaviour is not pinned are not generated; undecidable programs are discarded and counted.", "DESIGN.md §2, §5 C01"),
+ "C12": ("exploration", "recording OS + real-OS canaries + real stdio capture + strace syscall monitor over every live os/filepath/fmt function, OS builtin and file method in 5 execution contexts x 2 OS-supply routes",
+         "Every live operation is executed under a recording OS in every context/route; the oracle is that the recording OS saw it and that canaries, real stdio and the strace trace show no access carrying the sentinel token. Held on the operations and argument shapes explored.",
+         "strace must be available (preflight, else inconclusive); file-object method names are read from the source tree the binary was built from.", "DESIGN.md §5 C12"),
+ "C14": ("exploration", "recording fs.FS + strace for import paths, execution-count (tick) monitor and shared-state/separate-globals value monitor over generated module graphs and import spellings",
+         "Generated module trees are imported through FSImporter and LocalImporter with every accepted spelling and hostile path texts; names reaching the filesystem, module body execution counts and values seen through every alias are checked against a small model. Held on the graphs/spellings explored.",
+         "Order of module body execution and values of unsynchronised concurrent increments are not demanded.", "DESIGN.md §5 C14"),
+ "C16": ("exploration", "reference-model monitor over container operation histories (script route and object-API route), all live containers compared after every step",
+         "Random and directed operation histories (<=40 steps, aliases/copies/slices) on list/map/set/string/byte_slice are run through scripts and the object API and compared step by step with plain Go models. Held on the histories explored.",
+         "Where the statement leaves behaviour open (slice starting at len, absent members) either outcome is accepted; pinned choices are listed in the evidence assumptions.", "DESIGN.md §5 C16"),
 }
 
 NOT_YET = {}
